@@ -545,6 +545,82 @@ theorem stray_closer_witness :
         "{\"failedMessage\":\"\"}\n{\"failedMessage\":\"x\"}".toList).isSome = true := by
   decide
 
+/-! ### sixth wave: something after the document, wherever the document ends -/
+
+/-- The reader the code has (`json.Unmarshal` of the whole file) rejects a document followed by
+anything but white space — whatever the decoder step is, hence at every offset and for every size. -/
+theorem anything_after_document_rejected {α β : Type} (next : α → Text.Step α β) (atEnd : α → Bool)
+    (inp rest : α) (v : β) (h : next inp = .val v rest) (hr : atEnd rest = false) :
+    Text.decodeWhole next atEnd inp = none := by
+  simp [Text.decodeWhole, h, hr]
+
+/-- A reader that looks for trailing data only in what the decoder has buffered equals the reader the
+code has exactly when the buffer never hides a non-blank remainder … -/
+theorem buffered_reader_faithful {α β : Type} (next : α → Text.Step α β) (atEnd : α → Bool) (buffered : α → α)
+    (hb : ∀ r, atEnd (buffered r) = atEnd r) (inp : α) :
+    (Text.decodeBuffered next atEnd buffered inp : Option β) = Text.decodeWhole next atEnd inp := by
+  unfold Text.decodeBuffered Text.decodeWhole
+  cases next inp <;> simp [hb]
+
+/-- … and accepts a malformed file as soon as it does: a document that ends where the buffer ends. -/
+theorem buffered_reader_accepts_unread_rest {α β : Type} (next : α → Text.Step α β) (atEnd : α → Bool)
+    (buffered : α → α) (inp rest : α) (v : β) (h : next inp = .val v rest) (hr : atEnd rest = false)
+    (hb : atEnd (buffered rest) = true) :
+    Text.decodeBuffered next atEnd buffered inp = some v ∧ Text.decodeWhole next atEnd inp = none := by
+  simp [Text.decodeBuffered, Text.decodeWhole, h, hr, hb]
+
+/-- **C12.1, response files: a complete document followed by anything fails the execution**, whatever
+the length of the document, of the white space around it and of what follows: if the decoder step finds
+a value of the right type at the head of the admission (conversion) response file and the rest is not
+blank, the execution fails after a zero exit and nothing is applied or relayed. -/
+theorem document_then_anything_fails (keep : Bool) (names : Names) (oks : List Bool) (dir : List Name)
+    (hok : ∀ b ∈ oks, b = true) (bv : Bool) (sem yaml : Patch) (mt at' ct pt : List Char)
+    (h : (∃ v rest, Text.next Text.admissionOk at' = .val v rest ∧ Text.atEnd rest = false) ∨
+         (∃ v rest, Text.next Text.conversionOk ct = .val v rest ∧ Text.atEnd rest = false)) :
+    let r := handle (run keep names oks (outOfTexts 0 bv sem yaml mt at' ct pt) dir)
+    r.failed = true ∧ r.patchExecuted = false ∧ r.metricsSent = false ∧ r.admissionProp = false ∧
+      r.conversionProp = false := by
+  have key : ∀ (ok : Text.V → Bool) (t : List Char),
+      (∃ v rest, Text.next ok t = .val v rest ∧ Text.atEnd rest = false) →
+      t ≠ [] ∧ ¬ ∃ v, Text.Whole (Text.next ok) Text.atEnd t v := by
+    intro ok t ⟨v, rest, hn, hr⟩
+    refine ⟨?_, ?_⟩
+    · intro ht
+      subst ht
+      simp [Text.next, Text.skipWs] at hn
+    · rintro ⟨v', rest', hn', hr'⟩
+      rw [hn] at hn'
+      injection hn' with _ h2
+      subst h2
+      rw [hr] at hr'
+      exact Bool.noConfusion hr'
+  apply malformed_text_fails keep names oks dir hok bv sem yaml mt at' ct pt
+  rcases h with h | h
+  · exact Or.inr (Or.inl (key _ _ h))
+  · exact Or.inr (Or.inr (Or.inl (key _ _ h)))
+
+/-- Regression witness (pieces of 8 bytes instead of encoding/json's 512): `{"a":1}` + line end is
+exactly one piece, the cut-off beginning of a second document follows. Rejected by the reader the code
+has, accepted by the `Buffered()` variant; two more bytes in front and both reject. -/
+theorem buffered_check_variant_witness :
+    let t1 := "{\"a\":1}\n{\"failedMe".toList
+    let t2 := "  {\"a\":1}\n{\"failedMe".toList
+    (Text.wholeOk Text.conversionOk t1).isNone = true ∧
+    (Text.decodeBuffered (Text.next Text.conversionOk) Text.atEnd (Text.bufferedChunk 8 t1) t1).isSome = true ∧
+    (Text.wholeOk Text.conversionOk t2).isNone = true ∧
+    (Text.decodeBuffered (Text.next Text.conversionOk) Text.atEnd (Text.bufferedChunk 8 t2) t2).isNone = true := by
+  decide
+
+/-- Non-vacuity of `document_then_anything_fails`: the text of the witness satisfies its hypothesis. -/
+example : ∃ v rest, Text.next Text.conversionOk "{\"a\":1}\n{\"failedMe".toList = .val v rest ∧
+    Text.atEnd rest = false := by
+  have h : (match Text.next Text.conversionOk "{\"a\":1}\n{\"failedMe".toList with
+      | .val _ rest => !Text.atEnd rest | _ => false) = true := by decide
+  cases hn : Text.next Text.conversionOk "{\"a\":1}\n{\"failedMe".toList with
+  | val v rest => rw [hn] at h; exact ⟨v, rest, rfl, by simpa using h⟩
+  | eof => rw [hn] at h; simp at h
+  | err => rw [hn] at h; simp at h
+
 /-- Non-vacuity of the grammar: well-formed texts of each kind are inside it (numbers with fraction
 and exponent, escapes, nested values in an ignored field, `null`), wrongly typed / truncated ones are not. -/
 example :
